@@ -19,7 +19,7 @@
    exhaustion, out-of-memory, the scanner/parser/AST compiler, the VM loop and the
    standard library. *)
 From Coq Require Import ZArith List Lia.
-From GV Require Import VM.Opcode VM.OpcodeProofs VM.Limits VM.LimitsProofs VM.Wf VM.WfProofs VM.ParseDepth VM.ParseDepthProofs.
+From GV Require Import VM.Opcode VM.OpcodeProofs VM.Limits VM.LimitsProofs VM.Wf VM.WfProofs VM.ParseDepth VM.ParseDepthProofs VM.ExpDepth VM.ExpDepthProofs.
 Import ListNotations.
 Open Scope Z_scope.
 
@@ -192,3 +192,12 @@ Theorem C04_parser_recursion_depth_bounded : forall fuel ts,
   (frames_of (parseChunk fuel ts) <= S maxNestingDepth)%nat.
 Proof. exact recursion_depth_bounded. Qed.
 Print Assumptions C04_parser_recursion_depth_bounded.
+
+(* ---------------------------------------------------------------- AST compiler recursion *)
+(* Model: VM/ExpDepth.v, the recursion skeleton of astcomp's expression dispatch with the round-3
+   depth counter.  The parser's loops build expression trees of unlimited depth (f()()()..., a.b.b...,
+   x .. y .. z ...); for every tree the compiler has at most maxExpDepth + 1 nested CompileExp frames. *)
+Theorem C04_astcomp_recursion_depth_bounded : forall e d, (d <= maxExpDepth)%nat ->
+  (cframes (compileExp e d) <= S maxExpDepth)%nat.
+Proof. exact exp_depth_bounded. Qed.
+Print Assumptions C04_astcomp_recursion_depth_bounded.
